@@ -47,6 +47,7 @@ type TypeSpec struct {
 	Invariants []*Clause
 	GhostField map[string]string // name -> sort
 	Monitors   []*MonitorSpec
+	Callbacks  map[string]*Contract // contracts of function-typed fields
 	File       string
 	Line       int
 }
@@ -122,8 +123,9 @@ func (ss *SpecSet) parse(src, file, pkgPath string, trusted bool) error {
 	lines := strings.Split(src, "\n")
 	// strip comments, join continuation lines
 	type ln struct {
-		text string
-		no   int
+		text   string
+		no     int
+		indent int
 	}
 	var ls []ln
 	for i, l := range lines {
@@ -139,7 +141,17 @@ func (ss *SpecSet) parse(src, file, pkgPath string, trusted bool) error {
 			first = t[:j]
 		}
 		if clauseKW[first] || len(ls) == 0 {
-			ls = append(ls, ln{t, i + 1})
+			ind := 0
+			for _, c := range l {
+				if c == ' ' {
+					ind++
+				} else if c == '\t' {
+					ind += 8
+				} else {
+					break
+				}
+			}
+			ls = append(ls, ln{t, i + 1, ind})
 		} else {
 			ls[len(ls)-1].text += " " + t
 		}
@@ -159,7 +171,12 @@ func (ss *SpecSet) parse(src, file, pkgPath string, trusted bool) error {
 		}
 		return c, nil
 	}
+	cbIndent := -1
 	for _, l := range ls {
+		// clauses of a callback are the lines indented deeper than its "callback" line
+		if curCB != nil && l.indent <= cbIndent {
+			curCB = nil
+		}
 		kw, rest := l.text, ""
 		if j := strings.IndexAny(l.text, " \t"); j >= 0 {
 			kw, rest = l.text[:j], strings.TrimSpace(l.text[j+1:])
@@ -189,7 +206,7 @@ func (ss *SpecSet) parse(src, file, pkgPath string, trusted bool) error {
 			}
 			t := ss.Types[name]
 			if t == nil {
-				t = &TypeSpec{Name: name, GhostField: map[string]string{}, File: file, Line: l.no}
+				t = &TypeSpec{Name: name, GhostField: map[string]string{}, Callbacks: map[string]*Contract{}, File: file, Line: l.no}
 				ss.Types[name] = t
 			}
 			curT = t
@@ -201,6 +218,7 @@ func (ss *SpecSet) parse(src, file, pkgPath string, trusted bool) error {
 				return fmt.Errorf("%s:%d: monitor outside type", file, l.no)
 			}
 			m := &MonitorSpec{}
+			curCB = nil
 			f := strings.Fields(strings.ReplaceAll(rest, ",", " "))
 			i := 0
 			if len(f) > 0 {
@@ -234,6 +252,9 @@ func (ss *SpecSet) parse(src, file, pkgPath string, trusted bool) error {
 			cl, err := mk("invariant", "", rest, l.no)
 			if err != nil {
 				return err
+			}
+			if cur == nil {
+				curCB = nil
 			}
 			if curM != nil {
 				curM.Inv = append(curM.Inv, cl)
@@ -300,7 +321,19 @@ func (ss *SpecSet) parse(src, file, pkgPath string, trusted bool) error {
 			sf.Pkg = pkgPath
 			ss.Funs[sf.Name] = sf
 		default:
-			if cur == nil {
+			if cur == nil && curT != nil && kw == "callback" {
+				key, params, results, err := parseFuncHead(rest)
+				if err != nil {
+					return fmt.Errorf("%s:%d: %v", file, l.no, err)
+				}
+				cb := &Contract{Key: curT.Name + "#" + key, File: file, Line: l.no, Params: params, Results: results, Inst: map[string][]string{}, LoopInv: map[int][]*Clause{}, LoopMod: map[int][]*Clause{}, Callback: map[string]*Contract{}, Opts: map[string]string{}, Trusted: true}
+				curT.Callbacks[key] = cb
+				curCB = cb
+				cbIndent = l.indent
+				curM = nil
+				continue
+			}
+			if cur == nil && curCB == nil {
 				return fmt.Errorf("%s:%d: clause %q outside func", file, l.no, kw)
 			}
 			tgt := cur
@@ -358,6 +391,9 @@ func (ss *SpecSet) parse(src, file, pkgPath string, trusted bool) error {
 				}
 				switch f[1] {
 				case "invariant":
+					if cur == nil {
+						return fmt.Errorf("%s:%d: loop clause outside func", file, l.no)
+					}
 					cl, err := mk("invariant", f[0], f[2], l.no)
 					if err != nil {
 						return err
@@ -383,6 +419,7 @@ func (ss *SpecSet) parse(src, file, pkgPath string, trusted bool) error {
 				cb := &Contract{Key: cur.Key + "#" + key, File: file, Line: l.no, Params: params, Results: results, Inst: map[string][]string{}, LoopInv: map[int][]*Clause{}, LoopMod: map[int][]*Clause{}, Callback: map[string]*Contract{}, Opts: map[string]string{}, Trusted: true}
 				cur.Callback[key] = cb
 				curCB = cb
+				cbIndent = l.indent
 			case "opt":
 				f := strings.SplitN(rest, " ", 2)
 				v := "true"
@@ -494,7 +531,7 @@ func splitTop(s string) []string {
 	return out
 }
 
-var sortAliases = map[string]string{"IntArr": "(Array Int Int)", "BoolArr": "(Array Int Bool)", "IntSet": "(Array Int Bool)", "IntArr2": "(Array Int (Array Int Int))"}
+var sortAliases = map[string]string{"StrSet": "(Array Str Bool)", "StrMap": "(Array Str Str)", "IntArr": "(Array Int Int)", "BoolArr": "(Array Int Bool)", "IntSet": "(Array Int Bool)", "IntArr2": "(Array Int (Array Int Int))"}
 
 func sortAlias(s string) string {
 	if a, ok := sortAliases[s]; ok {
